@@ -96,19 +96,37 @@ def resolveEmpt (run : Nat → Except Fault (Map × Out)) (glObs : Option Nat) :
        | .ok (m, out) => if m.main.gl == g then .ok (m, out) else .error f
        | .error _ => .error f)
 
-/-- entry chains may erase once and insert (with up to `R` carried elements) in one call -/
-def resolveBoth (run : Nat → Nat → Except Fault (Map × Out)) (glObs : Option Nat) (maxH : Nat) :
+/-- Entry chains may erase and insert several times in one call; their oracle is read digit by digit
+    (`Orc.digit` / `Orc.shift`): position `i` of `empt` (base 2) and of `hits` (base `B`) belongs to step `i`.
+    Candidates are enumerated only over the positions whose step can erase / insert; the one whose final
+    `growth_left` and bucket count equal the observed ones is taken. -/
+def stepErases : Map.EStep → Bool
+  | .andReplace false _ | .occReplaceWith false _ | .occRemove | .occRemoveEntry => true
+  | _ => false
+def stepInserts : Map.EStep → Bool
+  | .insert .. | .orInsert .. | .vacInsert .. => true
+  | _ => false
+
+def chainCands (B : Nat) : Nat → List Map.EStep → List (Nat × Nat)
+  | _, [] => [(0, 0)]
+  | i, s :: rest =>
+    let tails := chainCands B (i + 1) rest
+    let es := if stepErases s then [0, 1] else [0]
+    let hs := if stepInserts s then List.range B else [0]
+    hs.flatMap fun hd => es.flatMap fun ed => tails.map fun (e, h) => (e + ed * 2 ^ i, h + hd * B ^ i)
+
+def resolveBoth (run : Nat → Nat → Except Fault (Map × Out)) (glObs mbObs : Option Nat) (cands : List (Nat × Nat)) :
     Except Fault (Map × Out) :=
   match glObs with
   | none => run 0 0
   | some g =>
-    let cands : List (Nat × Nat) := (List.range (maxH + 1)).flatMap (fun h => [(0, h), (1, h)])
     let first := run 0 0
     let rec go : List (Nat × Nat) → Except Fault (Map × Out)
       | [] => first
       | (e, h) :: rest =>
         match run e h with
-        | .ok (m, out) => if m.main.gl == g then .ok (m, out) else go rest
+        | .ok (m, out) =>
+          if m.main.gl == g && (match mbObs with | some b => m.main.buckets == b | none => true) then .ok (m, out) else go rest
         | .error _ => go rest
     go cands
 
@@ -220,7 +238,7 @@ def replayLine (s : DState) (op : String) (mid : Nat) (args : List String) (orc 
       | none => .bad s!"steps {steps}"
       | some st =>
         fin (resolveBoth (fun e h => Map.entryChain c (raw == "1") lh m k kid st { o with empt := e, hits := h })
-              glObs (c.R + 2))
+              glObs ((field? obs "mb").bind (·.toNat?)) (chainCands (c.R + 2) 0 st))
   | "finsert", [k, kid, v, vid, fuse] =>
     nat k fun k => nat kid fun kid => nat v fun v => nat vid fun vid => nat fuse fun fuse => needMap fun m =>
       finF (resolveHitsF (fun h => Map.insertFused c m ⟨k, kid, v, vid⟩ fuse { o with hits := h }) glObs (c.R + 2))
